@@ -189,6 +189,16 @@ func (w *requestWriter) encodeHeaders(req *http.Request, addGzipHeader bool, tra
 					continue
 				}
 
+			} else if strings.EqualFold(k, "te") {
+				// RFC 9114, section 4.2: the only value TE may carry is "trailers".
+				// The peer treats anything else as a malformed request.
+				var kept []string
+				for _, v := range vv {
+					if v == "trailers" {
+						kept = append(kept, v)
+					}
+				}
+				vv = kept
 			}
 
 			for _, v := range vv {
